@@ -193,4 +193,62 @@ theorem pairwise_lt_nodup {l : List String} (h : l.Pairwise (· < ·)) : l.Nodup
     have hz := List.pairwise_cons.mp h
     exact List.nodup_cons.mpr ⟨fun hm => String.lt_irrefl z (hz.1 z hm), ih hz.2⟩
 
+/-! ### edges come from the graph -/
+
+theorem lookup_mem {g : Graph} {r : String} {ps : List String} (h : lookup r g = some ps) : ∃ k, (k, ps) ∈ g := by
+  induction g with
+  | nil => simp [lookup] at h
+  | cons e g ih =>
+    obtain ⟨k, qs⟩ := e
+    simp only [lookup] at h
+    split at h
+    · cases h; exact ⟨k, List.mem_cons_self⟩
+    · obtain ⟨k', hk⟩ := ih h; exact ⟨k', List.mem_cons_of_mem _ hk⟩
+
+theorem parentOf_mem {g : Graph} {b c : String} (hp : parentOf g b c) : ∃ e ∈ g, c ∈ e.2 := by
+  unfold parentOf parents at hp
+  cases hl : lookup b g with
+  | none => rw [hl] at hp; cases hp
+  | some ps =>
+    rw [hl] at hp
+    obtain ⟨k, hk⟩ := lookup_mem hl
+    exact ⟨(k, ps), hk, hp⟩
+
+/-- two strictly increasing lists with the same members are equal -/
+theorem pairwise_lt_ext : ∀ (l₁ l₂ : List String), l₁.Pairwise (· < ·) → l₂.Pairwise (· < ·) →
+    (∀ r, r ∈ l₁ ↔ r ∈ l₂) → l₁ = l₂ := by
+  intro l₁
+  induction l₁ with
+  | nil =>
+    intro l₂ _ _ hm
+    cases l₂ with
+    | nil => rfl
+    | cons y ys => exact absurd ((hm y).mpr List.mem_cons_self) (by simp)
+  | cons x xs ih =>
+    intro l₂ h1 h2 hm
+    cases l₂ with
+    | nil => exact absurd ((hm x).mp List.mem_cons_self) (by simp)
+    | cons y ys =>
+      have hx := List.pairwise_cons.mp h1
+      have hy := List.pairwise_cons.mp h2
+      have hxy : x = y := by
+        rcases List.mem_cons.mp ((hm x).mp List.mem_cons_self) with h | h
+        · exact h
+        · rcases List.mem_cons.mp ((hm y).mpr List.mem_cons_self) with h' | h'
+          · exact h'.symm
+          · exact absurd (String.lt_trans (hy.1 x h) (hx.1 y h')) (String.lt_irrefl y)
+      subst hxy
+      congr 1
+      apply ih ys hx.2 hy.2
+      intro r
+      constructor
+      · intro hr
+        rcases List.mem_cons.mp ((hm r).mp (List.mem_cons_of_mem _ hr)) with h | h
+        · subst h; exact absurd (hx.1 r hr) (String.lt_irrefl r)
+        · exact h
+      · intro hr
+        rcases List.mem_cons.mp ((hm r).mpr (List.mem_cons_of_mem _ hr)) with h | h
+        · subst h; exact absurd (hy.1 r hr) (String.lt_irrefl r)
+        · exact h
+
 end Rbacx.Roles
